@@ -146,6 +146,45 @@ func RandomCFG(r *rng.R, p CFGParams) *Spec {
 			break
 		}
 	}
+	// token names that differ only by leading zeros of a digit run (INT8 / INT08), and names longer than any column a
+	// listing might reserve, two of them with a long common prefix
+	if r.Chance(1, 8) {
+		var named []int
+		for ti := range s.Terms {
+			if s.Terms[ti].Name != "" {
+				named = append(named, ti)
+			}
+		}
+		if len(named) >= 2 {
+			s.Terms[named[0]].Name = "INT8"
+			s.Terms[named[1]].Name = "INT08"
+			if len(named) >= 3 {
+				s.Terms[named[2]].Name = "INT008"
+			}
+		}
+	}
+	if r.Chance(1, 8) {
+		long := []string{"assignment_expression_list", "assignment_expression_tail", "multiplicative_expression_with_a_very_long_name"}
+		for k, nm := range long {
+			if k < len(s.NTs) {
+				s.NTs[(k+r.Intn(len(s.NTs)))%len(s.NTs)].Name = nm
+			}
+		}
+		// (assigning to the same index twice just leaves fewer long names)
+		seen := map[string]bool{}
+		for i := range s.NTs {
+			if seen[s.NTs[i].Name] {
+				s.NTs[i].Name = fmt.Sprintf("%s_%d", s.NTs[i].Name, i)
+			}
+			seen[s.NTs[i].Name] = true
+		}
+		for ti := range s.Terms {
+			if s.Terms[ti].Name != "" && r.Chance(1, 3) {
+				s.Terms[ti].Name = "TOKEN_WITH_A_LONG_NAME_" + s.Terms[ti].Name
+				break
+			}
+		}
+	}
 	// a nonterminal spelled like a word yacc or yaccgo gives a meaning elsewhere (never emitted as an identifier)
 	if r.Chance(1, 10) {
 		words := []string{"error", "token", "type", "union", "left", "right", "prec", "nonassoc", "empty", "precedence"}
@@ -284,9 +323,24 @@ func AddRandomPrec(s *Spec, r *rng.R) {
 	for _, lv := range s.Levels {
 		withPrec = append(withPrec, lv.Terms...)
 	}
+	// %prec may name any declared token; one without a level gives the rule no precedence at all (it clears what the
+	// rule would inherit from its last ranked terminal)
+	ranked := map[int]bool{}
+	for _, t := range withPrec {
+		ranked[t] = true
+	}
+	var unranked []int
+	for ti, t := range s.Terms {
+		if !ranked[ti] && t.Decl == DeclToken {
+			unranked = append(unranked, ti)
+		}
+	}
 	for i := range s.Rules {
 		if r.Chance(1, 6) && len(withPrec) > 0 {
 			s.Rules[i].Prec = rng.Pick(r, withPrec)
+			if len(unranked) > 0 && r.Chance(1, 4) {
+				s.Rules[i].Prec = rng.Pick(r, unranked)
+			}
 		}
 	}
 }
@@ -408,7 +462,7 @@ type OpTable struct {
 // BinarySep is the text the action of binary operator op puts between its operands.
 func (ot *OpTable) BinarySep(op int) string {
 	if ot.MultiLine {
-		return fmt.Sprintf(" o%d\n\t    <li>\n  ", op)
+		return fmt.Sprintf(" o%d  \n\t    <li> \t\n  ", op) // (lines inside the literal end in blanks and a tab)
 	}
 	return fmt.Sprintf(" o%d ", op)
 }
